@@ -340,48 +340,13 @@ func c01Scenarios(th bool) []*Scn {
 			out = append(out, c01Scn(q, bound))
 		}
 	}
-	// concurrent API tails: a second goroutine calls AddPeer (tail 3) or Close (tail 4) j steps into DeletePeer,
-	// for every j of a sweep, on the script pairs that have a session to tear down
+	out = append(out, c01ConcurrentTails("C01", th, []int{3, 4, 5}, []int{0, 1, 2, 4, 5})...)
+	// a callback that takes longer than any internal patience: DeletePeer / Close wait for it
 	stay := 4
 	type io struct {
 		passive bool
 		in, out int
 	}
-	for _, cb := range []io{{false, -1, stay}, {false, stay, -1}, {true, stay, -1}, {false, -1, 5}, {false, stay, stay}} {
-		for _, tail := range []int{3, 4, 5} {
-			for _, t := range []int{0, 6000} {
-				stride := 4
-				if th {
-					stride = 1
-				}
-				if th {
-					bound = 1 // +1 below: the dense sweep at bound 2
-				}
-				for j := 0; j <= 44; j += stride {
-					out = append(out, c01Scn(c01Params{passive: cb.passive, in: cb.in, out: cb.out, tail: tail, trigK: "time", trigN: t, api2J: j}, bound+1))
-				}
-			}
-		}
-	}
-	// slow plugin callbacks: the API tail starts while an FSM goroutine sits inside a callback that takes
-	// 300 ms (100 ms in / at the instant it returns); OnClose: the second call of a tail meets it
-	for _, cb := range []io{{false, -1, stay}, {true, stay, -1}, {false, stay, stay}, {false, -1, 5}} {
-		for _, tail := range []int{0, 1, 2, 4, 5} {
-			for _, kind := range []string{"GetCapabilities", "OnOpenMessage", "OnEstablished", "OnClose"} {
-				for _, t := range []int{100, 300} {
-					if kind == "OnClose" && t == 300 {
-						continue
-					}
-					p := c01Params{passive: cb.passive, in: cb.in, out: cb.out, tail: tail, trigK: "time", trigN: t}
-					if tail >= 4 {
-						p.api2J = 6
-					}
-					out = append(out, slowTwin(c01Scn(p, 1), kind, 1, 300*time.Millisecond))
-				}
-			}
-		}
-	}
-	// a callback that takes longer than any internal patience: DeletePeer / Close wait for it
 	for _, cb := range []io{{false, -1, stay}, {true, stay, -1}} {
 		for _, tail := range []int{0, 1, 2} {
 			for _, kind := range []string{"Handler", "OnEstablished"} {
@@ -394,6 +359,52 @@ func c01Scenarios(th bool) []*Scn {
 	for _, n := range []int{2, 3} {
 		for _, t := range []int{0, 3000} {
 			out = append(out, c01MultiScn(n, t, bound))
+		}
+	}
+	return out
+}
+
+// c01ConcurrentTails: (a) a second goroutine calls AddPeer (tail 3) or Close (tail 4) j steps into DeletePeer,
+// or Close j steps into Close (tail 5), for every j of a sweep, on the script pairs that have a session to
+// tear down; (b) slow plugin callbacks: the API tail starts while an FSM goroutine sits inside a callback
+// that takes 300 ms (100 ms in / at the instant it returns); OnClose: the second call of a tail meets it.
+// Also run by C10 (tails with a Close in them): what holds at the return of Close holds whoever else is
+// shutting down at the same time.
+func c01ConcurrentTails(prop string, th bool, tails, slowTails []int) []*Scn {
+	var out []*Scn
+	bound := 1
+	stay := 4
+	type io struct {
+		passive bool
+		in, out int
+	}
+	for _, cb := range []io{{false, -1, stay}, {false, stay, -1}, {true, stay, -1}, {false, -1, 5}, {false, stay, stay}} {
+		for _, tail := range tails {
+			for _, t := range []int{0, 6000} {
+				stride := 4
+				if th {
+					stride = 1
+				}
+				for j := 0; j <= 44; j += stride {
+					out = append(out, c01ScnFor(prop, c01Params{passive: cb.passive, in: cb.in, out: cb.out, tail: tail, trigK: "time", trigN: t, api2J: j}, bound+1))
+				}
+			}
+		}
+	}
+	for _, cb := range []io{{false, -1, stay}, {true, stay, -1}, {false, stay, stay}, {false, -1, 5}} {
+		for _, tail := range slowTails {
+			for _, kind := range []string{"GetCapabilities", "OnOpenMessage", "OnEstablished", "OnClose"} {
+				for _, t := range []int{100, 300} {
+					if kind == "OnClose" && t == 300 {
+						continue
+					}
+					p := c01Params{passive: cb.passive, in: cb.in, out: cb.out, tail: tail, trigK: "time", trigN: t}
+					if tail >= 4 {
+						p.api2J = 6
+					}
+					out = append(out, slowTwin(c01ScnFor(prop, p, 1), kind, 1, 300*time.Millisecond))
+				}
+			}
 		}
 	}
 	return out
@@ -462,7 +473,9 @@ func c01Check(c *harness.Ctx) {
 	}
 }
 
-func c01Lookup(name string) *Scn {
+func c01Lookup(name string) *Scn { return c01LookupFor("C01", name) }
+
+func c01LookupFor(prop, name string) *Scn {
 	if strings.HasPrefix(name, "multi/") {
 		var n, t int
 		fmt.Sscanf(name, "multi/%dpeers/time%d", &n, &t)
@@ -499,7 +512,7 @@ func c01Lookup(name string) *Scn {
 	if i := strings.IndexByte(parts[5], '+'); i >= 0 {
 		fmt.Sscanf(parts[5][i:], "+%d", &p.api2J)
 	}
-	return c01Scn(p, 3)
+	return c01ScnFor(prop, p, 3)
 }
 
 func init() {
